@@ -1,13 +1,15 @@
 import Abverif.Proofs.C03
 import Abverif.Proofs.Lemmas.SchemaTotal
 import Abverif.Proofs.Lemmas.SchemaStrict
+import Abverif.Proofs.Lemmas.SchemaCtor
+import Abverif.Proofs.Lemmas.SchemaSpecClean
 import Abverif.Proofs.Lemmas.SchemaRolesSpec
 import Abverif.Proofs.Lemmas.UriGrammar
 /-
 C08 — untrusted WAMP input is either a valid message or a protocol error.  Property theorems.
 
 The Model is the schema engine (`unserializeOne` = envelope checks + `MESSAGE_TYPE_MAP` dispatch + `Klass.parse`,
-with every exception class the real code raises, including the constructor `assert`s — finding F3); the Spec is
+with every exception class the real code raises, including the constructor `assert`s); the Spec is
 "only ProtocolError / InvalidUriError, and what is accepted is strictly well-formed".  Statements that today's code
 violates are kept as `def … : Prop` (full strength), proved in `_partial` form, and the violation is witnessed.
 -/
@@ -17,73 +19,55 @@ open Generated.WampCodes
 /-! ## totality: which exception classes can leave `unserialize` -/
 
 /-- **full statement** (C08): parsing any deserialized structure yields a message or one of the library's own
-protocol-level errors.  FALSE of today's code (F3): see the witnesses below. -/
+protocol-level errors. -/
 def ParseTotalTyped (O : Oracles) : Prop := ∀ v : WVal, ErrIn Allowed (unserializeOne O v)
 
-theorem parse_classes (σ : Schema) (O : Oracles) (w : List WVal) :
-    ErrIn (fun c => Allowed c ∨ c = .assertion ∨ c = .typeError) (σ.parse O w) := by
-  unfold Schema.parse
-  apply ErrIn.bind ((parseStage_classes σ O w).mono (fun c h => h.elim Or.inl (fun h => Or.inr (Or.inr h))))
-  intro m _
-  apply ErrIn.bind ((ctorStage_classes σ O m).mono (fun c h => h.elim Or.inl (fun h => Or.inr (Or.inl h))))
-  intro _ _
-  exact ErrIn.pure _
+/-- in all 25 classes every constructor assertion is covered by a check of `parse`: an asserted option has the
+parse-time type that implies the assertion, a cross-field assertion concerns the tail of a class that has one
+(payload is bytes, `enc_*` valid, `enc_key`/`enc_serializer` only with `enc_algo`) or is checked by `parse` itself
+(UNSUBSCRIBED / UNREGISTERED).  Decided on the concrete schemas. -/
+theorem schemas_ctorCovered : ∀ σ ∈ all25, σ.ctorCovered = true := by
+  have h : all25.all (fun σ => σ.ctorCovered) = true := by decide
+  exact fun σ hσ => List.all_eq_true.mp h σ hσ
 
-/-- **partial form, all 25 classes, all inputs**: the only other exception classes are the two the model carries
-explicitly — `AssertionError` (constructor assertions on values `parse` did not validate) and `TypeError`
-(a HELLO/WELCOME role feature named `self`).  Nothing else (no IndexError, KeyError, ValueError, …) can leave. -/
-theorem parse_total_typed_partial (O : Oracles) (v : WVal) :
-    ErrIn (fun c => Allowed c ∨ c = .assertion ∨ c = .typeError) (unserializeOne O v) := by
+theorem schemas_wf_all : ∀ σ ∈ all25, σ.wf = true := by
+  have h : all25.all (fun σ => σ.wf) = true := by decide
+  exact fun σ hσ => List.all_eq_true.mp h σ hσ
+
+/-- **the constructor assertions are unreachable from `parse`** (all 25 classes, all inputs): once the part of
+`parse` in front of the constructor call has succeeded, the constructor's `assert`s all hold and it does nothing but
+`_validate_kwargs` (`ProtocolError`).  Before the F3 repair this was false at 29 sites (`enc_*`, `payload`,
+UNSUBSCRIBED/UNREGISTERED ids, WELCOME `auth*`). -/
+theorem ctor_assertions_unreachable (σ : Schema) (hσ : σ ∈ all25) (O : Oracles) (w : List WVal) (m : Msg)
+    (h : σ.parseStage O w = .ok m) :
+    σ.ctorStage O m = (if σ.tail.isSome then Schema.kwargsCheck m else pure ()) :=
+  ctor_unreachable σ O w m (schemas_wf_all σ hσ) (schemas_ctorCovered σ hσ) h
+
+/-- every class, every input: `Klass.parse` raises only `ProtocolError` / `InvalidUriError` -/
+theorem parse_classes (σ : Schema) (hσ : σ ∈ all25) (O : Oracles) (w : List WVal) : ErrIn Allowed (σ.parse O w) :=
+  parse_allowed_of_covered σ O w (schemas_wf_all σ hσ) (schemas_ctorCovered σ hσ)
+
+theorem schemaOfCode_mem {code : Int} {σ : Schema} (h : schemaOfCode code = some σ) : σ ∈ all25 := by
+  unfold schemaOfCode at h
+  split at h
+  · cases h
+  · exact List.mem_of_find?_eq_some h
+
+/-- **totality at full strength, all 25 classes, all inputs**: whatever deserialized structure reaches
+`Serializer.unserialize`'s dispatch, the outcome is a message or `ProtocolError` / `InvalidUriError` — no
+`AssertionError` (the constructor assertions are unreachable, `ctor_assertions_unreachable`), no `TypeError` (a role
+feature named `self` is an unknown feature like any other), and nothing else (no IndexError, KeyError, …). -/
+theorem parse_total_typed (O : Oracles) : ParseTotalTyped O := by
+  intro v
   unfold unserializeOne
   split
-  · exact ErrIn.fail _ (Or.inl rfl)
+  · exact ErrIn.fail _ rfl
   · split
-    · exact ErrIn.fail _ (Or.inl rfl)
-    · exact ErrIn.bind (parse_classes _ O _) (fun _ _ => ErrIn.pure _)
-  · exact ErrIn.fail _ (Or.inl rfl)
-  · exact ErrIn.fail _ (Or.inl rfl)
-
-/-- the excluded input class, exactly: a non-library exception out of a class without `roles` means that the input
-passed every check of `parse` itself and then tripped a constructor assertion -/
-theorem assertion_only_after_parse (σ : Schema) (O : Oracles) (w : List WVal) (hnr : σ.noRoles = true)
-    (e : Err) (h : σ.parse O w = .error e) (hna : ¬ Allowed e.cls) :
-    e.cls = .assertion ∧ ∃ m, σ.parseStage O w = .ok m ∧ σ.ctorStage O m = .error e := by
-  unfold Schema.parse at h
-  cases hps : σ.parseStage O w with
-  | error e' =>
-    rw [hps] at h
-    have : e' = e := by simpa [bind, Except.bind] using h
-    subst this
-    exact absurd (parseStage_allowed σ O w hnr _ hps) hna
-  | ok m =>
-    rw [hps] at h
-    simp only [bind, Except.bind] at h
-    cases hcs : σ.ctorStage O m with
-    | error e' =>
-      rw [hcs] at h
-      have : e' = e := by simpa using h
-      subst this
-      rcases ctorStage_classes σ O m _ hcs with ha | ha
-      · exact absurd ha hna
-      · exact ⟨ha, m, rfl, hcs⟩
-    | ok u =>
-      rw [hcs] at h
-      simp [pure, Except.pure] at h
-
-/-- **totality at full strength for the classes whose constructors assert nothing that `parse` leaves unchecked** -/
-theorem parse_total_typed_assertFree (σ : Schema) (O : Oracles) (w : List WVal)
-    (hnr : σ.noRoles = true) (haf : σ.assertFree = true) : ErrIn Allowed (σ.parse O w) := by
-  unfold Schema.parse
-  apply ErrIn.bind (parseStage_allowed σ O w hnr); intro m _
-  apply ErrIn.bind (ctorStage_allowed_of_assertFree σ O m haf); intro _ _
-  exact ErrIn.pure _
-
-/-- today these are: ABORT, CHALLENGE, AUTHENTICATE, GOODBYE, PUBLISHED, SUBSCRIBED, EVENT_RECEIVED, REGISTERED and
-UNREGISTER (whose constructor asserts nothing at all) -/
-theorem assertFree_classes :
-    (all25.filter (fun σ => σ.noRoles && σ.assertFree)).map (·.name) =
-      [cs!"Abort", cs!"Challenge", cs!"Authenticate", cs!"Goodbye", cs!"Published", cs!"Subscribed",
-       cs!"EventReceived", cs!"Registered", cs!"Unregister"] := by decide
+    · exact ErrIn.fail _ rfl
+    · rename_i σ hσ
+      exact ErrIn.bind (parse_classes σ (schemaOfCode_mem hσ) O _) (fun _ _ => ErrIn.pure _)
+  · exact ErrIn.fail _ rfl
+  · exact ErrIn.fail _ rfl
 
 /-- class of the error, if any -/
 def errClass? (r : Except Err α) : Option ErrClass :=
@@ -91,94 +75,63 @@ def errClass? (r : Except Err α) : Option ErrClass :=
   | .ok _ => none
   | .error e => some e.cls
 
-/-! ### F3 witnesses: today's failing inputs (the faithful model exhibits them) -/
+/-! ### the former F3 failing inputs: now `ProtocolError`
 
-/-- `Error.parse([8,48,1,{"forward_for":[1]},"a.b"])`: AssertionError as long as the `for … break … valid = True` loop of
-Error.parse is not repaired (`ffFixed_Error`, regenerated from the source on every run) -/
-theorem f3_forward_for_witness :
-    ffFixed_Error = false → Schemas.error.ctorAsserts = true →
+(before the repair each of these evaluated to `some .assertion`; should a check be removed from `parse` again the model
+no longer matches the code — correspondence break — and the harness reports the `AssertionError` as a violation) -/
+
+theorem f3_inputs_now_protocol_errors :
+    -- `[8,48,1,{"enc_key":"k"},"a.b",b"xx"]`: `enc_key` without `enc_algo`
     errClass? (unserializeOne oracles (.list [.int 8, .int 48, .int 1,
-      .dict [(cs!"forward_for", .list [.int 1])], .str cs!"a.b"])) = some .assertion := by decide +kernel
-
-/-- `[8,48,1,{"enc_key":"k"},"a.b",b"xx"]`: `enc_key` without `enc_algo` trips the constructor's triple assertion -/
-theorem f3_enc_key_witness :
-    Schemas.error.ctorAsserts = true →
-    errClass? (unserializeOne oracles (.list [.int 8, .int 48, .int 1,
-      .dict [(cs!"enc_key", .str cs!"k")], .str cs!"a.b", .bytes [120, 120]])) = some .assertion := by decide +kernel
-
-/-- `[2,1,{"roles":{"broker":{}},"realm":1}]`: WELCOME takes `realm` unvalidated -/
-theorem f3_welcome_realm_witness :
-    Schemas.welcome.ctorAsserts = true →
+      .dict [(cs!"enc_key", .str cs!"k")], .str cs!"a.b", .bytes [120, 120]])) = some .protocol ∧
+    -- `[48,1,{"enc_algo":"","enc_serializer":"x_ser"},"a.b",b"zz"]`: a falsy `enc_algo` that is not None
+    errClass? (unserializeOne oracles (.list [.int 48, .int 1,
+      .dict [(cs!"enc_algo", .str []), (cs!"enc_serializer", .str cs!"x_ser")], .str cs!"a.b", .bytes [122, 122]])) = some .protocol ∧
+    -- `[2,1,{"roles":{"broker":{}},"realm":1}]`: WELCOME `realm` of the wrong type
     errClass? (unserializeOne oracles (.list [.int 2, .int 1,
-      .dict [(cs!"roles", .dict [(cs!"broker", .dict [])]), (cs!"realm", .int 1)]])) = some .assertion := by decide +kernel
-
-/-- `[35,5,{"subscription":7}]`: UNSUBSCRIBED's constructor asserts request == 0 when a subscription is given -/
-theorem f3_unsubscribed_witness :
-    Schemas.unsubscribed.ctorAsserts = true →
-    errClass? (unserializeOne oracles (.list [.int 35, .int 5, .dict [(cs!"subscription", .int 7)]])) = some .assertion := by
+      .dict [(cs!"roles", .dict [(cs!"broker", .dict [])]), (cs!"realm", .int 1)]])) = some .protocol ∧
+    -- `[35,5,{"subscription":7}]`: UNSUBSCRIBED with a subscription detail but request ≠ 0
+    errClass? (unserializeOne oracles (.list [.int 35, .int 5, .dict [(cs!"subscription", .int 7)]])) = some .protocol ∧
+    -- `[48,1,{},"a.b","x"]`: CALL with a `str` where the payload / args go
+    errClass? (unserializeOne oracles (.list [.int 48, .int 1, .dict [], .str cs!"a.b", .str cs!"x"])) = some .protocol := by
   decide +kernel
 
-/-- `[16,1,{},"a.b","x"]`: PUBLISH accepts a `str` payload which the constructor then rejects -/
-theorem f3_publish_str_payload_witness :
-    Schemas.publish.ctorAsserts = true →
-    errClass? (unserializeOne oracles (.list [.int 16, .int 1, .dict [], .str cs!"a.b", .str cs!"x"])) = some .assertion := by
-  decide +kernel
-
-/-- `[1,"realm1",{"roles":{"caller":{"features":{"self":true}}}}]`: TypeError out of `RoleCallerFeatures(**features)` -/
-theorem hello_self_feature_witness :
+/-- `[1,"realm1",{"roles":{"caller":{"features":{"self":true}}}}]` is accepted: `self` is an unknown feature name
+(ignored), not a collision with the bound argument of `RoleCallerFeatures(**features)` -/
+theorem hello_self_feature_ignored :
     errClass? (unserializeOne oracles (.list [.int 1, .str cs!"realm1",
-      .dict [(cs!"roles", .dict [(cs!"caller", .dict [(cs!"features", .dict [(cs!"self", .bool true)])])])]])) =
-      some .typeError := by decide +kernel
-
-/-- hence the full statement fails on the faithful model (as long as ERROR's constructor still asserts) -/
-theorem not_parseTotalTyped (hflag : Schemas.error.ctorAsserts = true) : ¬ ParseTotalTyped oracles := by
-  intro h
-  have hw := f3_enc_key_witness hflag
-  unfold errClass? at hw
-  split at hw
-  · simp at hw
-  · rename_i e he
-    have := h _ e he
-    simp only [Option.some.injEq] at hw
-    rw [hw] at this
-    simp [Allowed, ErrClass.allowed] at this
+      .dict [(cs!"roles", .dict [(cs!"caller", .dict [(cs!"features", .dict [(cs!"self", .bool true)])])])]])) = none := by
+  decide +kernel
 
 /-! ## strictness: what an accepted message satisfies -/
 
 /-- the regenerated bound of `check_or_raise_id` is the protocol's 2^53 -/
-theorem id_bound_is_2_53 : idBound = 2 ^ 53 := by decide
+theorem id_bound_is_2_53 : idBound = 2 ^ 53 := idBound_eq
 
-theorem idOk_iff_spec (i : Int) : idOk i = specIdOk i := by
-  simp [idOk, specIdOk, id_bound_is_2_53]
+theorem idOk_iff_spec (i : Int) : idOk i = specIdOk i := idOk_eq_spec i
 
 
 /-- **full statement** (C08, in terms of the Spec): nothing is accepted that has an id outside [0, 2^53], a URI outside
-the *intended* grammar, a wrongly typed option, or a type code that is not the protocol's.  FALSE of today's code:
-F2 (URIs), ids in options that are only checked for `int`, `force_reregister: 1`, UNREGISTER's unchecked
-`forward_for` — witnesses below. -/
+the *intended* grammar, a wrongly typed option, or a type code that is not the protocol's.  Still FALSE of today's
+code, for one reason only: PUBLISH admits `args` of type `str`/`bytes` (on purpose: the constructor does too; open
+finding) — witness below.  The other former reasons are repaired: F2 (URIs), ids in options (now
+`check_or_raise_id`), `force_reregister: 1`, UNREGISTER's unchecked `forward_for`. -/
 def ParseStrictSpec : Prop :=
   ∀ (v : WVal) (σ : Schema) (m : Msg), unserializeOne oracles v = .ok (σ, m) → σ.specViolations Uri.Spec.ok m = []
-
-/-- every class with an args/kwargs/payload tail carries the three payload assertions -/
-theorem schemas_wfCross : ∀ σ ∈ all25, σ.wfCross = true := by
-  have h : all25.all (fun σ => σ.wfCross) = true := by decide
-  exact fun σ hσ => List.all_eq_true.mp h σ hσ
 
 /-- **partial form, proved for all inputs**: a message accepted by `parse` is `strict` — every positional id lies in
 [0, 2^53] (regenerated bound = 2^53, `id_bound_is_2_53`), every URI is accepted by the regenerated recogniser
 selected by its flags (REGISTER: by the `match` option), every positional `str`/`dict`/enum has its type, every
 option holds its default or a value that passes its type check (`OTy.valid`), args/kwargs/payload and the `enc_*`
 triple have the shapes the constructor asserts, and the attribute names are exactly the class's.
-What is missing w.r.t. `ParseStrictSpec`: the recogniser is the regenerated regex (equal to the intended grammar by `uri_equiv`), and `OTy.valid` is the *checked* type: ids inside options are only `int`, `boolLoose` admits
-0/1, `forwardFor false` admits any list (the witnesses below). -/
+What is missing w.r.t. `ParseStrictSpec`: the recogniser is the regenerated regex (equal to the intended grammar by
+`uri_equiv`), `forwardFor false` would admit any list (all 13 flags are `true`, `forward_for_loops_repaired`), and
+PUBLISH's `args` may be `str`/`bytes`. -/
 theorem parse_strict (σ : Schema) (hσ : σ ∈ roundTrip23) (O : Oracles) (w : List WVal) (m : Msg)
     (h : σ.parse O w = .ok m) : σ.strict O m = true := by
   have hall : σ ∈ all25 := (List.mem_filter.mp hσ).1
   have hnr : σ.noRoles = true := (List.mem_filter.mp hσ).2
-  have hwf : σ.wf = true := by
-    have hh : all25.all (fun σ => σ.wf) = true := by decide
-    exact List.all_eq_true.mp hh σ hall
-  exact parse_strict_core σ O w m hwf hnr (schemas_wfCross σ hall) h
+  exact parse_strict_core σ O w m (schemas_wf_all σ hall) hnr h
 
 /-- ids: a positional id of an accepted message is in the protocol's range -/
 theorem parse_strict_ids (σ : Schema) (hσ : σ ∈ roundTrip23) (O : Oracles) (w : List WVal) (m : Msg)
@@ -230,13 +183,57 @@ theorem strict_witness_trailing_newline :
      | .ok (σ, m) => !(σ.specViolations Uri.Spec.ok m).isEmpty
      | .error _ => false) = true := by decide +kernel
 
-theorem strict_witness_force_reregister :
-    (match unserializeOne oracles (.list [.int 64, .int 1, .dict [(cs!"force_reregister", .int 1)], .str cs!"a.b"]) with
-     | .ok (σ, m) => !(σ.specViolations Uri.Spec.ok m).isEmpty
-     | .error _ => false) = true := by decide +kernel
+/-- ids inside the options of an accepted message are in the protocol's range too (`caller`, `callee`, `publisher`,
+`subscription`, `registration`: since the repair they go through `check_or_raise_id`) -/
+theorem parse_strict_option_ids (σ : Schema) (hσ : σ ∈ roundTrip23) (O : Oracles) (w : List WVal) (m : Msg)
+    (h : σ.parse O w = .ok m) (s : OptStep) (hs : s ∈ σ.opts) (hty : s.ty = .id) (hd : s.dflt = .null) :
+    m.get s.field = .null ∨ ∃ i, m.get s.field = .int i ∧ 0 ≤ i ∧ i ≤ 2 ^ 53 := by
+  have hst := (strict_parts (parse_strict σ hσ O w m h)).2.2.1 s hs
+  simp only [OptStep.strict, Bool.or_eq_true, hd, hty] at hst
+  rcases hst with h0 | h1
+  · exact Or.inl (isDflt_eq h0)
+  · right
+    cases hv : m.get s.field <;> rw [hv] at h1 <;> simp [OTy.valid] at h1
+    rename_i i
+    refine ⟨i, rfl, ?_⟩
+    rw [idOk_iff_spec] at h1
+    simp only [specIdOk, Bool.and_eq_true, decide_eq_true_eq] at h1
+    exact ⟨h1.1, by simpa using h1.2⟩
 
-theorem strict_witness_option_id_range :
-    (match unserializeOne oracles (.list [.int 16, .int 1, .dict [(cs!"exclude", .list [.int (-1)])], .str cs!"a.b"]) with
+/-- … and so is every element of PUBLISH's `exclude` / `eligible` lists -/
+theorem parse_strict_option_id_lists (σ : Schema) (hσ : σ ∈ roundTrip23) (O : Oracles) (w : List WVal) (m : Msg)
+    (h : σ.parse O w = .ok m) (s : OptStep) (hs : s ∈ σ.opts) (hty : s.ty = .listId) (hd : s.dflt = .null) :
+    m.get s.field = .null ∨ ∃ xs, m.get s.field = .list xs ∧ allId xs = true := by
+  have hst := (strict_parts (parse_strict σ hσ O w m h)).2.2.1 s hs
+  simp only [OptStep.strict, Bool.or_eq_true, hd, hty] at hst
+  rcases hst with h0 | h1
+  · exact Or.inl (isDflt_eq h0)
+  · right
+    cases hv : m.get s.field <;> rw [hv] at h1 <;> simp [OTy.valid] at h1
+    exact ⟨_, rfl, h1⟩
+
+example : (Schemas.publish.opts.filter (fun s => s.ty matches .listId)).map (·.field) = [cs!"exclude", cs!"eligible"] := by
+  decide
+
+/-- which options are WAMP ids (checked with `check_or_raise_id`), per class -/
+theorem id_options :
+    (all25.map (fun σ => (σ.name, (σ.opts.filter (fun s => s.ty matches .id)).map (·.field)))).filter (fun e => !e.2.isEmpty) =
+      [(cs!"Hello", [cs!"resume_session"]), (cs!"Error", [cs!"callee"]), (cs!"Unsubscribed", [cs!"subscription"]),
+       (cs!"Event", [cs!"publisher"]), (cs!"Call", [cs!"caller"]), (cs!"Result", [cs!"callee"]),
+       (cs!"Unregistered", [cs!"registration"]), (cs!"Invocation", [cs!"caller"]), (cs!"Yield", [cs!"callee"])] := by
+  decide
+
+/-- the former witnesses of `¬ ParseStrictSpec` are rejected with `ProtocolError` now: `force_reregister: 1`, a negative
+session id in `exclude`, a `callee` above 2^53 -/
+theorem former_strict_witnesses_rejected :
+    errClass? (unserializeOne oracles (.list [.int 64, .int 1, .dict [(cs!"force_reregister", .int 1)], .str cs!"a.b"])) = some .protocol ∧
+    errClass? (unserializeOne oracles (.list [.int 16, .int 1, .dict [(cs!"exclude", .list [.int (-1)])], .str cs!"a.b"])) = some .protocol ∧
+    errClass? (unserializeOne oracles (.list [.int 8, .int 48, .int 1, .dict [(cs!"callee", .int 9007199254740993)], .str cs!"a.b"])) = some .protocol := by
+  decide +kernel
+
+/-- the remaining witness that `ParseStrictSpec` fails: `[16,1,{},"a.b","s",{}]` — PUBLISH accepts a `str` for `args` -/
+theorem strict_witness_publish_args_str :
+    (match unserializeOne oracles (.list [.int 16, .int 1, .dict [], .str cs!"a.b", .str cs!"s", .dict []]) with
      | .ok (σ, m) => !(σ.specViolations Uri.Spec.ok m).isEmpty
      | .error _ => false) = true := by decide +kernel
 
@@ -246,9 +243,68 @@ theorem strict_witness_unregister_forward_for :
      | .ok (σ, m) => !(σ.specViolations Uri.Spec.ok m).isEmpty
      | .error _ => false) = true := by decide +kernel
 
+/-- every schema has the protocol's type code, every `forward_for` loop is repaired and the types that admit `None`
+default to `None` — what `specViolations_of_parse` needs of a schema; decided on the 25 concrete schemas -/
+theorem schemas_specReady : ∀ σ ∈ all25, σ.specReady = true := by
+  have h : all25.all (fun σ => σ.specReady) = true := by decide
+  exact fun σ hσ => List.all_eq_true.mp h σ hσ
+
+theorem unserializeOne_ok {O : Oracles} {v : WVal} {σ : Schema} {m : Msg} (h : unserializeOne O v = .ok (σ, m)) :
+    ∃ code rest, v = .list (.int code :: rest) ∧ schemaOfCode code = some σ ∧ σ.parse O (.int code :: rest) = .ok m := by
+  unfold unserializeOne at h
+  split at h
+  · simp [fail] at h
+  · rename_i code rest
+    split at h
+    · simp [fail] at h
+    · rename_i σ' hσ'
+      cases hp : σ'.parse O (.int code :: rest) with
+      | error e => rw [hp] at h; simp [bind, Except.bind] at h
+      | ok m' =>
+        rw [hp] at h
+        simp only [bind, Except.bind, pure, Except.pure, Except.ok.injEq, Prod.mk.injEq] at h
+        obtain ⟨rfl, rfl⟩ := h
+        exact ⟨code, rest, rfl, hσ', hp⟩
+  · simp [fail] at h
+  · simp [fail] at h
+
+/-- PUBLISH is the only class whose tail admits `str` / `bytes` arguments -/
+theorem publish_only_variant :
+    all25.all (fun σ => match σ.tail with
+      | some t => (t.variant != .publish) || σ.name == cs!"Publish"
+      | none => true) = true := by decide
+
+/-- **`ParseStrictSpec` up to the one open finding, all 25 classes, all inputs**: in a message that `unserialize`
+accepts the Spec (protocol id range, *intended* URI grammar, intended option types, protocol type codes — none of it
+read off the code) objects to nothing except the `args` of a PUBLISH (which may be `str`/`bytes`).  Before the repairs
+it also objected to ids inside options, `force_reregister: 1`, F2 URIs and unchecked `forward_for` lists. -/
+theorem parse_strict_spec_partial (v : WVal) (σ : Schema) (m : Msg) (h : unserializeOne oracles v = .ok (σ, m)) :
+    ∀ fr ∈ σ.specViolations Uri.Spec.ok m, fr = (cs!"args", cs!"type") ∧ σ.name = cs!"Publish" := by
+  obtain ⟨code, rest, _, hσ, hp⟩ := unserializeOne_ok h
+  have hmem := schemaOfCode_mem hσ
+  intro fr hfr
+  obtain ⟨hfr', t, ht, hv⟩ :=
+    specViolations_of_parse σ (schemas_wf_all σ hmem) (schemas_specReady σ hmem) _ m hp fr hfr
+  refine ⟨hfr', ?_⟩
+  have := List.all_eq_true.mp publish_only_variant σ hmem
+  rw [ht] at this
+  simp only [hv, bne_self_eq_false, Bool.false_or, beq_iff_eq] at this
+  exact this
+
+/-- hence the full statement holds for the 24 other classes -/
+theorem parse_strict_spec_but_publish (v : WVal) (σ : Schema) (m : Msg) (h : unserializeOne oracles v = .ok (σ, m))
+    (hn : σ.name ≠ cs!"Publish") : σ.specViolations Uri.Spec.ok m = [] := by
+  apply List.eq_nil_iff_forall_not_mem.mpr
+  intro fr hfr
+  exact hn (parse_strict_spec_partial v σ m h fr hfr).2
+
+example : (match unserializeOne oracles (.list [.int 48, .int 1, .dict [(cs!"caller", .int 7)], .str cs!"a.b", .list [.int 1]]) with
+    | .ok (σ, m) => σ.name == cs!"Call" && (σ.specViolations Uri.Spec.ok m).isEmpty
+    | .error _ => false) = true := by decide +kernel
+
 theorem not_parseStrictSpec : ¬ ParseStrictSpec := by
   intro h
-  have hw := strict_witness_force_reregister
+  have hw := strict_witness_publish_args_str
   split at hw
   · rename_i σ m he
     have := h _ σ m he
@@ -260,7 +316,7 @@ theorem not_parseStrictSpec : ¬ ParseStrictSpec := by
 /-- **roles: accepted iff the Spec accepts.**  For any role-name list and feature table, the parse model's check of a
 `roles` value succeeds exactly on the values `rolesAccept` describes: non-empty str-keyed dict, allowed role names,
 dict-valued roles, `features` (if present) a str-keyed dict in which every *known* feature of that role is absent,
-null or a JSON bool; unknown feature names ignored; a feature named `self` not accepted. -/
+null or a JSON bool; unknown feature names ignored (one spelled `self` too). -/
 theorem roles_accept_iff (site : Str) (allowed : List Str) (feats : List (Str × List Str)) (v : WVal) :
     isOkB (rolesCheck site allowed feats v) = rolesAccept allowed feats v :=
   rolesCheck_isOk_iff site allowed feats v
@@ -315,21 +371,23 @@ example : Schemas.call.parse oracles (Schemas.call.marshal exCall) = .ok exCall 
     (parse_marshal _ _ (schemas_wf _ (by simp [all25])) _ (by decide +kernel))
     (by decide +kernel)
 
-/-- witness: `[16,1,{},"a.b","s",{}]` is accepted by PUBLISH (args may be a `str` there), re-marshals to
-`[16,1,{},"a.b","s"]`, which is read as a `str` payload and trips the constructor -/
+/-- witness: `[16,1,{},"a.b",b"\x00\xff",{}]` is accepted by PUBLISH (args may be `bytes` there) with `payload = None`,
+re-marshals to `[16,1,{},"a.b",b"\x00\xff"]` (empty kwargs are not written), which is read as a transparent payload -/
 theorem reparse_witness_publish :
-    Schemas.publish.ctorAsserts = true →
-    (match Schemas.publish.parse oracles [.int 16, .int 1, .dict [], .str cs!"a.b", .str cs!"s", .dict []] with
-     | .ok m => errClass? (Schemas.publish.parse oracles (Schemas.publish.marshal m)) == some .assertion
+    (match Schemas.publish.parse oracles [.int 16, .int 1, .dict [], .str cs!"a.b", .bytes [0, 255], .dict []] with
+     | .ok m => (m.get cs!"payload").isNull &&
+         (match Schemas.publish.parse oracles (Schemas.publish.marshal m) with
+          | .ok m' => !(m'.get cs!"payload").isNull
+          | .error _ => false)
      | .error _ => false) = true := by decide +kernel
 
-theorem not_reparseEquiv_publish (hflag : Schemas.publish.ctorAsserts = true) : ¬ ReparseEquiv Schemas.publish := by
+theorem not_reparseEquiv_publish : ¬ ReparseEquiv Schemas.publish := by
   intro h
-  have hw := reparse_witness_publish hflag
+  have hw := reparse_witness_publish
   split at hw
   · rename_i m he
     rw [h _ m he] at hw
-    simp [errClass?] at hw
+    cases hp : (m.get cs!"payload").isNull <;> simp [hp] at hw
   · simp at hw
 
 /-! ## envelope: type codes and element counts -/
@@ -354,14 +412,17 @@ theorem accepted_envelope (O : Oracles) (v : WVal) (σ : Schema) (m : Msg) (h : 
         obtain ⟨rfl, rfl⟩ := h
         refine ⟨code, rest, rfl, hσ', ?_⟩
         -- the length check is the first thing `parse` does
-        unfold Schema.parse Schema.parseStage at hp
+        unfold Schema.parse at hp
+        obtain ⟨m1, hps, _⟩ := bind_eq_ok hp
+        have hf := (parseStage_fields hps).1
+        unfold Schema.parseFields at hf
         by_cases hl : σ'.lengths.contains (rest.length + 1) = true
         · exact hl
         · have hneg : (!σ'.lengths.contains (List.length (WVal.int code :: rest))) = true := by
             simp only [List.length_cons]
             cases hc : σ'.lengths.contains (rest.length + 1) <;> simp_all
-          rw [if_pos hneg] at hp
-          simp [fail, bind, Except.bind] at hp
+          rw [if_pos hneg] at hf
+          simp [fail] at hf
   · simp [fail] at h
   · simp [fail] at h
 
